@@ -782,3 +782,41 @@ Proof.
       * apply filter_In. split; [exact Hin|]. apply Nat.eqb_eq, Hl.
     + destruct (fb_names_ok n t) as (_ & _ & Hres & _). rewrite <- Hn. apply Hres, Hin.
 Qed.
+
+(* ------------------------------------------------------------------------------------------ *)
+(* G. a tree that fits the budget is drawn completely                                          *)
+
+Lemma mv_visit_count : forall t st, (snd (mv_visit t st) <= snd st + t_size t)%nat.
+Proof.
+  induction t as [n s tot ch IH] using tnode_ind'. intros st. rewrite mv_visit_eq. cbn [t_total t_ch t_size].
+  destruct (ca_push tot (fst st)) as [ok c']. destruct ok; [|cbn [snd]; lia].
+  assert (H : forall st', (snd (mv_children ch st') <= snd st' + fold_right (fun c n => (t_size c + n)%nat) O ch)%nat).
+  { unfold mv_children. induction IH as [|c ch Hc _ IHch]; intros st'; cbn [fold_left fold_right]; [lia|].
+    specialize (IHch (mv_visit c st')). specialize (Hc st'). lia. }
+  specialize (H (c', S (snd st))). cbn [snd] in H. lia.
+Qed.
+
+Lemma t_minval_small n t : (t_size t <= n)%nat -> t_minval n t = 0.
+Proof.
+  intros H. unfold t_minval. pose proof (mv_visit_count t (ca_new n, O)) as Hc. cbn [snd] in Hc.
+  replace (Nat.leb (snd (mv_visit t (ca_new n, O))) n) with true; [reflexivity|].
+  symmetry. apply Nat.leb_le. lia.
+Qed.
+
+Lemma folded_zero l : folded 0 l = 0.
+Proof. induction l as [|c l IH]; [reflexivity|]. rewrite folded_cons. replace (N.leb 0 (t_total c)) with true by (symmetry; apply N.leb_le, N.le_0_l). exact IH. Qed.
+
+Lemma fbars_zero_iff : forall t lvl f,
+  fbars 0 lvl t f <-> exists d n, desc_at d t n /\ f = ((lvl + d)%nat, t_total n, t_self n, t_name n).
+Proof.
+  intros t lvl f. split.
+  - induction 1 as [lvl t|lvl t Hne|lvl t c f Hin Hle _ IH].
+    + exists O, t. split; [constructor|]. rewrite Nat.add_0_r. reflexivity.
+    + rewrite folded_zero in Hne. congruence.
+    + destruct IH as (d & n & Hd & ->). exists (S d), n. split; [econstructor; eauto|].
+      replace (lvl + S d)%nat with (S lvl + d)%nat by lia. reflexivity.
+  - intros (d & n & Hd & ->). revert lvl. induction Hd as [t|d t c n Hin Hd IH]; intros lvl.
+    + rewrite Nat.add_0_r. constructor.
+    + apply (fbars_child 0 lvl t c); [exact Hin|apply N.le_0_l|].
+      replace (lvl + S d)%nat with (S lvl + d)%nat by lia. apply IH.
+Qed.
